@@ -1,12 +1,13 @@
 #!/bin/bash
-# usage: seed_round.sh <letter> <evaldir> <property ids...>
-# Confirms /tmp/seed/<ID>/seed/<letter> as /verif/seeded/<ID><letter> and triages it against every quick
-# check in the scratch copy <evaldir> (tools/seed_confirm.sh + tools/seed_eval.sh).
+# usage: seed_round.sh <letter> <evaldir> <dir[:id]>...
+# Confirms /tmp/seed/<dir>/seed/<letter> as /verif/seeded/<id> (default id: <dir><letter>) and triages it
+# against every quick check in the scratch copy <evaldir> (tools/seed_confirm.sh + tools/seed_eval.sh).
 L="$1"; E="$2"; shift 2
-for P in "$@"; do
-  if /verif/tools/seed_confirm.sh /tmp/seed/$P seed/$L ${P}${L} 2>&1 | tail -1 | grep -q CONFIRMED; then
-    EVALDIR=$E /verif/tools/seed_eval.sh ${P}${L} 2>&1 | tail -1
+for A in "$@"; do
+  D="${A%%:*}"; ID="${A#*:}"; [ "$ID" = "$A" ] && ID="${D}${L}"
+  if /verif/tools/seed_confirm.sh /tmp/seed/$D seed/$L $ID 2>&1 | tail -1 | grep -q CONFIRMED; then
+    EVALDIR=$E /verif/tools/seed_eval.sh $ID 2>&1 | tail -1
   else
-    echo "${P}${L}: REJECTED by seed_confirm"
+    echo "$ID: REJECTED by seed_confirm"
   fi
 done
